@@ -141,6 +141,10 @@ def run_case(case: dict) -> dict:
                     ents = [c06._entity_at(w_, c["proto"], (c["x"], c["y"])) for c in case.get("containers") or []]
                     hit = hit or c06.known_crosstalk(w_, o_, stmts, [e for e in ents if e is not None], anchors=True)
             if hit:
+                from ..static_trigger import crosstalk_possible
+
+                hit = crosstalk_possible(stmts, case["inputs"])
+            if hit:
                 res["status"] = "excluded"
                 res["excluded_by"] = "crosstalk"
                 return res
